@@ -29,12 +29,12 @@ variable {α D : Type} [Add α] [Sub α] [Mul α] [Div α] [Neg α] [LT α] [LE 
     result is the exit block run on that head. -/
 theorem pantr_exit_is_head_exit (co : Consts α) (P : Problem α) (dir : Direction D α) (d0 : D)
     (pr : Params α) (stop : Nat → Bool) (oot : Bool) (x0 y Sig errz0 gV : Vec α) (s : St α D)
-    (hi : initState co P d0 pr x0 gV = .inr s) :
+    (hi : initState co P d0 pr stop x0 gV = .inr s) :
     ∃ s' : St α D, s'.k ≤ pr.maxIter ∧ Good P s'.curr ∧ (headStep P pr stop oot s').2.2 ≠ .Busy ∧
       run co P dir d0 pr stop oot x0 y Sig errz0 gV =
         exitBlock co pr (headStep P pr stop oot s').1 (headStep P pr stop oot s').2.1
           (headStep P pr stop oot s').2.2 x0 y Sig errz0 := by
-  have hs := initState_good co P d0 pr x0 gV s hi
+  have hs := initState_good co P d0 pr stop x0 gV s hi
   obtain ⟨s', h1, -, h3, h4, h5⟩ := mainLoop_exit_at_head co P dir pr stop oot x0 y Sig errz0
     (pr.maxIter + 1) s (by rw [hs.2.2.1]; omega) (by omega) hs.1
   refine ⟨s', h1, h3, h4, ?_⟩
@@ -44,7 +44,7 @@ theorem pantr_exit_is_head_exit (co : Consts α) (P : Problem α) (dir : Directi
 theorem pantr_iterations_le_max_iter (co : Consts α) (P : Problem α) (dir : Direction D α) (d0 : D)
     (pr : Params α) (stop : Nat → Bool) (oot : Bool) (x0 y Sig errz0 gV : Vec α) :
     (run co P dir d0 pr stop oot x0 y Sig errz0 gV).stats.iterations ≤ pr.maxIter := by
-  cases hi : initState co P d0 pr x0 gV with
+  cases hi : initState co P d0 pr stop x0 gV with
   | inl t => unfold run; simp [hi, stats0]
   | inr s =>
     obtain ⟨s', h1, -, -, he⟩ := pantr_exit_is_head_exit co P dir d0 pr stop oot x0 y Sig errz0 gV s hi
@@ -56,7 +56,7 @@ theorem pantr_iterations_le_max_iter (co : Consts α) (P : Problem α) (dir : Di
     event before the final callback. -/
 theorem pantr_status_is_chain (co : Consts α) (P : Problem α) (dir : Direction D α) (d0 : D)
     (pr : Params α) (stop : Nat → Bool) (oot : Bool) (x0 y Sig errz0 gV : Vec α) (s : St α D)
-    (hi : initState co P d0 pr x0 gV = .inr s) :
+    (hi : initState co P d0 pr stop x0 gV = .inr s) :
     (run co P dir d0 pr stop oot x0 y Sig errz0 gV).stats.status =
       statusChain pr.tolerance pr.maxIter pr.maxNoProgress
         (run co P dir d0 pr stop oot x0 y Sig errz0 gV).stats.iterations
@@ -75,7 +75,7 @@ theorem pantr_status_is_chain (co : Consts α) (P : Problem α) (dir : Direction
     shows the other criteria do not depend on `gh`).  `c` is consistent (`Good`). -/
 theorem pantr_eps_is_crit_of_final (co : Consts α) (P : Problem α) (dir : Direction D α) (d0 : D)
     (pr : Params α) (stop : Nat → Bool) (oot : Bool) (x0 y Sig errz0 gV : Vec α) (s : St α D)
-    (hi : initState co P d0 pr x0 gV = .inr s) :
+    (hi : initState co P d0 pr stop x0 gV = .inr s) :
     ∃ (c : Iterate α) (gh : Vec α),
       (run co P dir d0 pr stop oot x0 y Sig errz0 gV).final = some c ∧ Good P c ∧
       (run co P dir d0 pr stop oot x0 y Sig errz0 gV).stats.eps =
@@ -95,7 +95,7 @@ theorem pantr_eps_is_crit_of_final (co : Consts α) (P : Problem α) (dir : Dire
     final iterate. -/
 theorem pantr_final_callback (co : Consts α) (P : Problem α) (dir : Direction D α) (d0 : D)
     (pr : Params α) (stop : Nat → Bool) (oot : Bool) (x0 y Sig errz0 gV : Vec α) (s : St α D)
-    (hi : initState co P d0 pr x0 gV = .inr s) :
+    (hi : initState co P d0 pr stop x0 gV = .inr s) :
     ∃ cb : Callback α,
       (run co P dir d0 pr stop oot x0 y Sig errz0 gV).callbacks.getLast? = some cb ∧
       cb.status = (run co P dir d0 pr stop oot x0 y Sig errz0 gV).stats.status ∧
@@ -112,7 +112,7 @@ theorem pantr_final_callback (co : Consts α) (P : Problem α) (dir : Direction 
 section meaning
 variable (co : Consts α) (P : Problem α) (dir : Direction D α) (d0 : D)
     (pr : Params α) (stop : Nat → Bool) (oot : Bool) (x0 y Sig errz0 gV : Vec α) (s : St α D)
-    (hi : initState co P d0 pr x0 gV = .inr s)
+    (hi : initState co P d0 pr stop x0 gV = .inr s)
 include s hi
 
 local notation "R" => run co P dir d0 pr stop oot x0 y Sig errz0 gV
@@ -163,7 +163,7 @@ end meaning
     `ε = inf` (the default of `Stats`), outputs untouched. -/
 theorem pantr_early_exit (co : Consts α) (P : Problem α) (dir : Direction D α) (d0 : D)
     (pr : Params α) (stop : Nat → Bool) (oot : Bool) (x0 y Sig errz0 gV : Vec α) (t : Nat)
-    (hi : initState co P d0 pr x0 gV = .inl t) :
+    (hi : initState co P d0 pr stop x0 gV = .inl t) :
     (run co P dir d0 pr stop oot x0 y Sig errz0 gV).stats.status = .NotFinite ∧
     (run co P dir d0 pr stop oot x0 y Sig errz0 gV).stats.iterations = 0 ∧
     (run co P dir d0 pr stop oot x0 y Sig errz0 gV).stats.eps = co.inf ∧
@@ -178,7 +178,7 @@ example : (solve 2 false 1 0).stats.iterations ≤ 2 ∧ (solve 2 false 1 0).sta
   decide
 example : (solve 0 false (-1) 0).stats.status = .MaxIter ∧ (solve 0 false (-1) 0).stats.iterations = 0 := by
   decide
-example : ∃ s, initState co P () (pr 3 false) [5] [0] = .inr s := ⟨_, rfl⟩
+example : ∃ s, initState co P () (pr 3 false) (fun _ => false) [5] [0] = .inr s := ⟨_, rfl⟩
 
 end examples
 
